@@ -1,7 +1,7 @@
 SPECIFICATION Spec
 CONSTANTS
   MaxHandoffs = 4
-  Big = TRUE
+  Big = FALSE
 INVARIANT Agreement
 INVARIANT FundedScript
 INVARIANT ValidIffMDistinctSigners
